@@ -23,6 +23,7 @@ CHECKS["C08"] = {
         {"name": "cbsched", "pkg": "pkg/util/circuitbreaker", "test": "TestVerifC08sched", "workers": 6, "gomaxprocs": 1,
          "inject": [["pkg/util/circuitbreaker", "harness/C08/circuitbreaker"]],
          "instrument": [{"file": "pkg/util/circuitbreaker/circuitbreaker.go", "imports": {"sync": "vsync"}}]},
+        {"name": "proxy", "pkg": "pkg/filters/proxy", "test": "TestVerifC08proxy", "inject": [["pkg/filters/proxy", "harness/common/proxy"]], "workers": 1},
     ],
 }
 
